@@ -16,7 +16,8 @@
 (*      is smaller — the d smallest non-zero ones.                         *)
 (* ====================================================================== *)
 Require Import Arith Lia List Bool ZArith QArith Qcanon.
-From TK Require Import Mat_Sums Mat_Core Mat_Qc Lap_Model Lap_Spec Lap_Proof_Lap Lap_Proof_Embed.
+From TK Require Import Mat_Sums Mat_Core Mat_Qc Lap_Model Lap_Spec Lap_Proof_Lap Lap_Proof_Embed
+                       Lap_Proof_Complete.
 Import ListNotations.
 Local Open Scope list_scope.
 Local Open Scope nat_scope.
@@ -268,4 +269,67 @@ Proof.
     + intros c Hc' E.
       apply (Qclt_not_eq _ _ (Hp (1 + c) ltac:(lia) ltac:(lia))). symmetry. exact E.
   - intros c c' Hc1 Hc2 Hc3. apply Hasc; lia.
+Qed.
+
+(* ---------------------------------------------------------------------- *)
+(*  ... and relative to the PENCIL (L, Dm) itself, given the completeness  *)
+(*  relation V (V^T Dm) = I of the answer                                  *)
+(* ---------------------------------------------------------------------- *)
+Lemma find_lam_eq (lam : vec Qc) (mu : Qc) (n : nat) :
+  {c | c < n /\ lam c = mu} + {forall c, c < n -> lam c <> mu}.
+Proof.
+  induction n as [|n IH].
+  - right. intros c Hc. lia.
+  - destruct IH as [[c [Hc E]]|H].
+    + left. exists c. split; [lia|exact E].
+    + destruct (Qc_eq_dec (lam n) mu) as [E|E].
+      * left. exists n. split; [lia|exact E].
+      * right. intros c Hc. destruct (Nat.eq_dec c n) as [->|Hne]; [exact E|apply H; lia].
+Qed.
+
+Theorem le_pencil_spectrum
+        (heat : nat -> nat -> Qc) (n : nat) (nbrs : list (list nat)) (k d : nat)
+        (Dm V : mat Qc) (lam : vec Qc) :
+  d + 1 <= n ->
+  (forall i q, i < n -> q < k -> nb_at nbrs i q < n) ->
+  (forall i q, i < n -> q < k -> (0 < heat i (nb_at nbrs i q))%Qc) ->
+  lconnected n nbrs k ->
+  msym n Dm ->
+  gen_contract n (matL heat k nbrs n) Dm V lam ->
+  meq n n (mmul n V (mmul n (mtrans V) Dm)) mI ->
+  (forall a b, a <= b -> b < n -> (lam a <= lam b)%Qc) ->
+  lam 0 = 0%Qc /\
+  forall (mu : Qc) (y : vec Qc),
+    gen_eigvec n (matL heat k nbrs n) Dm mu y -> (exists i, i < n /\ y i <> 0%Qc) -> mu <> 0%Qc ->
+    exists c, 1 <= c /\ c < n /\ lam c = mu /\
+              (d < c -> forall c', c' < d -> (lam (1 + c')%nat <= mu)%Qc).
+Proof.
+  intros Hd Hb Hpos Hconn HDs Hc Hcomp Hasc.
+  destruct (le_smallest_nonzero heat n nbrs k d Dm V lam Hd Hb Hpos Hconn HDs Hc Hasc)
+    as [Hnn [Hp _]].
+  assert (HLs : msym n (matL heat k nbrs n)) by apply matL_sym_gen.
+  assert (Hfind : forall mu y, gen_eigvec n (matL heat k nbrs n) Dm mu y ->
+                   (exists i, i < n /\ y i <> 0%Qc) -> exists c, c < n /\ lam c = mu).
+  { intros mu y Hy [i [Hi Hyi]].
+    destruct (find_lam_eq lam mu n) as [[c [Hc' E]]|H]; [exists c; split; assumption|].
+    exfalso. apply Hyi.
+    apply (@spectrum_complete Qc QcOps QcField n (matL heat k nbrs n) Dm V lam HLs HDs Hc Hcomp mu y Hy H i Hi). }
+  assert (Z0 : lam 0 = 0%Qc).
+  { destruct (Hfind 0%Qc (fun _ => 1%Qc)) as [c [Hc' E]].
+    - intros i Hi. unfold mv, vscale.
+      rewrite (sumn_ext n _ (fun j => matL heat k nbrs n i j)).
+      + rewrite matL_row_sum_gen by exact Hi. change (@fmul Qc QcOps) with Qcmult.
+        change (@fzero Qc QcOps) with 0%Qc. ring.
+      + intros j _. change (@fmul Qc QcOps) with Qcmult. ring.
+    - exists 0. split; [lia|]. apply Q_apart_0_1.
+    - destruct c as [|c]; [exact E|].
+      exfalso. pose proof (Hp (S c) ltac:(lia) Hc') as P. rewrite E in P.
+      exact (Qclt_not_eq _ _ P eq_refl). }
+  split; [exact Z0|].
+  intros mu y Hy Hy0 Hmu.
+  destruct (Hfind mu y Hy Hy0) as [c [Hc' E]].
+  exists c. split.
+  - destruct c as [|c]; [|lia]. exfalso. apply Hmu. rewrite <- E. exact Z0.
+  - split; [exact Hc'|]. split; [exact E|].
+    intros Hdc c' Hc''. rewrite <- E. apply Hasc; lia.
 Qed.
